@@ -5,7 +5,7 @@
 //
 // case file line:  <id> <params:T|U|D> <workers> <lcp:0|1> <set:c|s> <nsched> <seed> <hex,hex,...>
 //   params T = tiny (smallsort_threshold 16, TreeBits 2, inssort 4), U = tiny unroll-interleave variant
-//   (smallsort 32, TreeBits 3), V = small (smallsort 64, TreeBits 3, inssort 8), D = default.   set c = unsigned char**, s = std::string*
+//   (smallsort 32, TreeBits 3), E = tiny with SSClassifyEqualUnroll (smallsort 32, TreeBits 3), V = small (smallsort 64, TreeBits 3, inssort 8), D = default.   set c = unsigned char**, s = std::string*
 // output per run:  R <id> <sched#> <OK|FAIL what> PT <protocol events>
 #include <algorithm>
 #include <cstdint>
@@ -79,6 +79,15 @@ public:
     static const bool enable_work_sharing = false;
 };
 
+// the third classifier of sample_sort_tools.hpp (equality test inside the tree descent)
+class ParamsTinyE : public ssd::PS5ParametersDefault {
+public:
+    static const unsigned TreeBits = 3;
+    using Classify = ssd::SSClassifyEqualUnroll<key_type, TreeBits>;
+    static const size_t smallsort_threshold = 32;
+    static const size_t inssort_threshold = 8;
+};
+
 class ParamsSmall : public ssd::PS5ParametersDefault {
 public:
     static const unsigned TreeBits = 3;
@@ -135,11 +144,13 @@ int main(int argc, char** argv) {
                 if (params == "T") sort_c<ParamsTiny>(ptrs.data(), n, lp);
                 else if (params == "U") sort_c<ParamsTinyU>(ptrs.data(), n, lp);
                 else if (params == "V") sort_c<ParamsSmall>(ptrs.data(), n, lp);
+                else if (params == "E") sort_c<ParamsTinyE>(ptrs.data(), n, lp);
                 else sort_c<ssd::PS5ParametersDefault>(ptrs.data(), n, lp);
             } else {
                 if (params == "T") sort_s<ParamsTiny>(sstr.data(), n, lp);
                 else if (params == "U") sort_s<ParamsTinyU>(sstr.data(), n, lp);
                 else if (params == "V") sort_s<ParamsSmall>(sstr.data(), n, lp);
+                else if (params == "E") sort_s<ParamsTinyE>(sstr.data(), n, lp);
                 else sort_s<ssd::PS5ParametersDefault>(sstr.data(), n, lp);
             }
 #ifdef USE_SHIM
